@@ -96,7 +96,11 @@ func (r *runner) exchange(t Target, c Case, in Input) Observed {
 	r.s.Emit(op, o.Outcome(), nontrivial, tags...)
 	for _, f := range Judge(t.Kind(), c.Exp, o) {
 		if r.wants(f.what) {
-			r.s.Violate(hk.Violation{Fingerprint: "rpc:" + t.Kind() + ":" + f.what,
+			fp := "rpc:" + t.Kind() + ":" + f.what
+			if c.Exp.Cause != "" && (strings.HasPrefix(f.what, "unserved-") || strings.HasPrefix(f.what, "unparsable-")) {
+				fp += ":" + c.Exp.Cause
+			}
+			r.s.Violate(hk.Violation{Fingerprint: fp,
 				What:  fmt.Sprintf("%s server, input class %q: %s %s", t.Kind(), c.Exp.Class, f.what, f.detail),
 				Input: describe(t, c, in), Observed: o.Outcome(), Expected: expectText(c.Exp)})
 		}
@@ -135,7 +139,7 @@ func (r *runner) wfLines(t Target, c Case, in Input, o Observed) {
 	var req any
 	whole := t.Kind() == "stdio"
 	if v, ok := ParseV(in.Body, whole); ok && in.Body != nil {
-		req = map[string]any{"json": v.Enc()}
+		req = map[string]any{"json": Compact(v).Enc()}
 	}
 	for _, m := range o.Messages() {
 		ds := checkMsg(c.Exp, m)
@@ -235,7 +239,13 @@ func (r *runner) httpCases(t Target) {
 			if kind == "sse" && verb == "GET" && path == "sse" {
 				return Expect{Class: "free"}
 			}
-			return Expect{Class: "unserved"}
+			cause := "session-" + ref
+			if path == "wrong" || path == "other" {
+				cause = "wrong-path"
+			} else if verb != "POST" || path == "sse" {
+				cause = "wrong-verb"
+			}
+			return Expect{Class: "unserved", Cause: cause}
 		}
 		switch bl {
 		case "ping":
@@ -251,7 +261,7 @@ func (r *runner) httpCases(t Target) {
 		case "response":
 			return Expect{Class: "response"}
 		case "id-only":
-			return Expect{Class: "unserved", Req: true}
+			return Expect{Class: "unserved", Cause: "id-without-method", Req: true}
 		case "garbage", "empty", "none":
 			return Expect{Class: "unparsable"}
 		}
